@@ -883,14 +883,18 @@ def run(tier, seed, replay=None):
     n_key = 0 if replay else int((3000 if thorough else 600) * sc)
     n_rand = 0 if replay else max(1, int((14 if thorough else 4) * sc))
     n_adv = 0 if replay else max(1, int((10 if thorough else 3) * sc))
-    cap = 1680 if thorough else max(8, int(40 * sc))
+    cap = 300 if thorough else max(8, int(40 * sc))
     n_par = 0 if replay else int((6000 if thorough else 1200) * sc)
     n_conc = 0 if replay else int((400 if thorough else 64) * sc)
     if sc != 1:
         out.notes.append(f"C15_SCALE={sc}")
 
     sets, conc_jobs = [], []
-    replays_and_corpus = [r for r in load_corpus() + ([json.load(open(replay)).get("replay")] if replay else []) if r]
+    replays_and_corpus = load_corpus()
+    if replay:
+        d = json.load(open(replay))
+        replays_and_corpus = [d.get("replay", d)]          # a replay run looks at that case only
+    replays_and_corpus = [r for r in replays_and_corpus if r]
     for r in replays_and_corpus:
         if r.get("kind") == "cache":
             sets.append({"config": r["config"], "kind": "corpus", "convs": r["convs"], "sched": r.get("sched"),
@@ -926,9 +930,16 @@ def run(tier, seed, replay=None):
     # ---- (2) conversations on shared vs fresh instances
     for cfg in ("general", "selfcheck", "exc"):
         sets += gen_sets(cfg, rng, n_rand, n_adv)
+        if thorough and not replay:
+            # one full 3 conversations x 3 turns set per config: all 1680 interleavings
+            base = [[u("a")], [u("x:y")], [u("q")]]
+            r0 = isolated(cfg, base)[0]
+            k0 = key_of(r0["req"] + [r0["reply"]])
+            sets.append({"config": cfg, "kind": "exhaustive-3x3", "exhaustive": True,
+                         "convs": [base, [[u(k0), u("q")], [u("then")], [u("more")]], json.loads(json.dumps(base))]})
     for cfg in CONFIGS:
         mk_app(cfg)                      # parse the configs before forking
-    preps = _pool_map(prep_set, [(s, cap, rng.randrange(1 << 30)) for s in sets])
+    preps = _pool_map(prep_set, [(s, 1680 if s.get("exhaustive") else cap, rng.randrange(1 << 30)) for s in sets])
     _t(out, 'isolated replays done')
     jobs, owner = [], []
     for si, (s, pr) in enumerate(zip(sets, preps)):
